@@ -62,6 +62,7 @@ function encArr(x) {
 }
 function mk(a) {
   if (a === null) return undefined;
+  if (a.t === 'chan') { if (a.nil) return get('$chanNil'); const c = new (get('$Chan'))(get('$Int'), 0); c.$closed = a.closed; return c; }
   if (a.t === 'arrv') return mkArr(a, a.kind);
   if (a.t === 'elemtype') { return (a.kind === 25 || a.kind === 17) ? elemType(a.kind, true) : {kind: a.kind}; }
   if (a.t === 'slice') {
@@ -88,6 +89,7 @@ function enc(v) {
   if (Array.isArray(v) || ArrayBuffer.isView(v)) return {t: 'tuple', v: Array.from(v).map(enc)};
   if (v !== null && typeof v === 'object' && '$array' in v && spec.arrays)
     return {t: 'slice', arr: encArr(v.$array), off: v.$offset, len: v.$length, cap: v.$capacity, nil: v === v.constructor.nil, kind: v.constructor.$gvckind === undefined ? 0 : v.constructor.$gvckind};
+  if (v !== null && typeof v === 'object' && '$sendQueue' in v) return {t: 'chan', nil: v === get('$chanNil'), closed: !!v.$closed};
   if (v !== null && typeof v === 'object' && '$high' in v) return {t: 'obj', f: {'$high': enc(v.$high), '$low': enc(v.$low)}};
   if (v !== null && typeof v === 'object' && '$array' in v) return {t: 'obj', f: {'$offset': enc(v.$offset), '$length': enc(v.$length), '$capacity': enc(v.$capacity)}};
   return {t: 'other'};
@@ -129,6 +131,8 @@ class JSReplayer:
             return {'t': ty, 'h': self.conc_num(m, v.fields['$high']), 'l': self.conc_num(m, v.fields['$low'])}
         if ty == 'arr':
             return self.conc_arr(m, v, 0)
+        if ty == 'chan':
+            return {'t': 'chan', 'nil': bool(z3.is_true(m.eval(v.fields['$nil'], model_completion=True))), 'closed': bool(z3.is_true(m.eval(v.fields['$closed'], model_completion=True)))}
         if ty == 'elemtype':
             return {'t': 'elemtype', 'kind': self.conc_num(m, v.fields['kind'])}
         if ty == 'slice':
@@ -173,6 +177,7 @@ class JSReplayer:
         t = enc['t'] if isinstance(enc, dict) else None
         if t in ('arr', 'arrv'): return self.lift_arr(st, enc)
         if t == 'elemtype': return JSObj({'kind': z3.IntVal(enc['kind'])}, ctor='Type')
+        if t == 'chan': return JSObj({'$nil': z3.BoolVal(bool(enc['nil'])), '$closed': z3.BoolVal(bool(enc['closed']))}, ctor='Chan')
         if t == 'slice':
             return JSObj({'$array': self.lift_arr(st, enc['arr']), '$offset': z3.IntVal(enc['off']), '$length': z3.IntVal(enc['len']), '$capacity': z3.IntVal(enc['cap']),
                           '$nil': z3.BoolVal(bool(enc['nil'])), '$elemtype': JSObj({'kind': z3.IntVal(enc['kind'])}, ctor='Type')}, ctor='Slice')
@@ -290,7 +295,7 @@ class JSReplayer:
                 post = pre.clone(); post.meta['concrete'] = True
                 post.entry = pre
                 for pnode, a in zip(self.fn['params'], out.get('args_after') or []):
-                    if isinstance(a, dict) and a.get('t') in ('arr', 'slice'):
+                    if isinstance(a, dict) and a.get('t') in ('arr', 'slice', 'chan'):
                         post.env[pnode['name']] = self.lift_st(post, a)       # (arrays may have been written: the heap after the call)
                 binds = ex.spec_binds(post)
                 binds['result'] = ex.to_spec(post, self.lift_st(post, out['result']))
